@@ -76,6 +76,11 @@ pub fn life_mock_with(stored: u32) -> Unimock {
     let u = Unimock::new_partial((
         UMock::lendreq.each_call(matching!(_)).answers(&|u, a| {
             // lend a value through whatever instance evaluates the call (the delegation helper for `dp`)
+            if a == 200 {
+                // lend a clone of the evaluating instance itself (op "pinlendclone"): owned two levels below the caller
+                let _c: &Unimock = u.make_ref(u.clone());
+                return Val::new(0);
+            }
             let _r: &Val = u.make_ref(Val::new(LENT_BASE + a as u32));
             Val::new(0)
         }),
@@ -299,6 +304,19 @@ impl LifeRunner {
                     kinds.insert(LENT_BASE + st.new as u32, 'v');
                     let (u, r) = self.on(t, move || {
                         let r = catch_unwind(AssertUnwindSafe(|| std::pin::Pin::new(&mut u).dp(a).id));
+                        (u, r)
+                    });
+                    slots[i] = Some(u);
+                    match r {
+                        Ok(0) => "ret:lent".into(),
+                        Ok(x) => format!("ret:{x}"),
+                        Err(p) => obs_res(Err(p)),
+                    }
+                }
+                "pinlendclone" => {
+                    let mut u = slots[i].take().unwrap();
+                    let (u, r) = self.on(t, move || {
+                        let r = catch_unwind(AssertUnwindSafe(|| std::pin::Pin::new(&mut u).dp(200).id));
                         (u, r)
                     });
                     slots[i] = Some(u);
